@@ -386,6 +386,39 @@ Definition reset_obj_v1 (da : atom) (db : bond) (o : obj) : obj :=
          (map (reset_atom_v1 da) (o_atoms o)) (map (reset_bond_v1 db) (o_bonds o))
          (o_nconf o) (o_coords o) (o_charges o) (o_weights o).
 
+(* ------------------------------------------------------------------ objects the public API can build *)
+(* name is a string (the name setter turns None into "unknown"), charge an int, mult a non-zero int (`mult or 1`),
+   attrib a dict, every element a valid atomic number, every bond endpoint an atom of the object, and the arrays
+   rectangular: (n_atoms,3)/(n_atoms,) for a molecule, (n_conf,n_atoms,3)/(n_conf,n_atoms)/(n_conf,) for an ensemble *)
+Definition is_str (v : val) : bool := match v with VStr _ => true | _ => false end.
+Definition is_int (v : val) : bool := match v with VInt _ => true | _ => false end.
+Definition is_nonzero_int (v : val) : bool := match v with VInt z => negb (Z.eqb z 0) | _ => false end.
+Definition is_map (v : val) : bool := match v with VMap _ => true | _ => false end.
+Definition wf_atomb (a : atom) : bool := valid_element (a_element a).
+Definition wf_bondb (n : nat) (b : bond) : bool :=
+  (Z.of_N (b_a1 b) <? Z.of_nat n)%Z && (Z.of_N (b_a2 b) <? Z.of_nat n)%Z.
+Definition wf_shapeb (ens : bool) (o : obj) : bool :=
+  let n := Z.of_nat (length (o_atoms o)) in
+  if ens then
+    len_is (o_coords o) (Z.of_N (o_nconf o) * n * 3) && len_is (o_charges o) (Z.of_N (o_nconf o) * n)
+    && len_is (o_weights o) (Z.of_N (o_nconf o))
+  else
+    N.eqb (o_nconf o) 0 && match o_weights o with [] => true | _ => false end
+    && len_is (o_coords o) (n * 3) && len_is (o_charges o) n.
+Definition wf_objb (ens : bool) (o : obj) : bool :=
+  is_str (o_name o) && is_int (o_charge o) && is_nonzero_int (o_mult o) && is_map (o_attrib o)
+  && forallb wf_atomb (o_atoms o) && forallb (wf_bondb (length (o_atoms o))) (o_bonds o)
+  && wf_shapeb ens o.
+Definition wf_obj (ens : bool) (o : obj) : Prop := wf_objb ens o = true.
+
+(* every attribute value is something msgpack returns unchanged (no list, no double outside single precision) *)
+Definition msgpack_stable (o : obj) : Prop := mnorm_obj o = o.
+
+(* "nothing else": conformer count, the three arrays (hence their shapes), number of atoms, and the bond
+   sequence with its endpoints *)
+Definition frame (o : obj) : N * list Z * list Z * list Z * nat * list (N * N) :=
+  (o_nconf o, o_coords o, o_charges o, o_weights o, length (o_atoms o), map (fun b => (b_a1 b, b_a2 b)) (o_bonds o)).
+
 (* ------------------------------------------------------------------ premises decided on the regenerated wiring *)
 Definition ocompat (s d : oslot) : bool := oslot_eqb d OSkip || oslot_eqb s d.
 
